@@ -5,7 +5,7 @@ use amv::gen::{Profile, World};
 use amv::net::*;
 use amv::obs::{enc_name, fingerprint, observe_opts};
 use amv::util::*;
-use automerge::{AutoCommit, ChangeHash};
+use automerge::{AutoCommit, ChangeHash, ReadDoc};
 use serde_json::json;
 use std::collections::BTreeSet;
 
@@ -43,6 +43,24 @@ fn converged(net: &mut Net, group: &[usize]) -> Option<String> {
         }
         let f = observe_opts(&net.docs[p], None, false).snap;
         if let Some(d) = amv::obs::first_diff(&f0, &f) {
+            if net.verbose {
+                for q in [first, p] {
+                    let mut c = net.docs[q].clone();
+                    let re = load_enc(&c.save(), c.text_encoding()).map(|l| observe_opts(&l, None, false).snap);
+                    let same = re.as_ref().map(|s| *s == observe_opts(&c, None, false).snap).unwrap_or(false);
+                    eprintln!("  P{q}: actor {} reload-equal={same} invariants={:?}", c.get_actor().to_hex_string(), c.verif_check_invariants());
+                    for (id, t) in net.gs.objs.iter().filter(|(_, t)| *t == automerge::ObjType::Text).take(2) {
+                        let _ = t;
+                        let heads = c.get_heads();
+                        eprintln!("     text {}: {:?}", amv::obs::exid_str(id), c.text(id));
+                        eprintln!("     marks()    = {:?}", c.marks(id).map(|v| v.iter().map(|m| format!("{}..{} {}={}", m.start, m.end, m.name(), m.value())).collect::<Vec<_>>()));
+                        eprintln!("     marks_at() = {:?}", c.marks_at(id, &heads).map(|v| v.iter().map(|m| format!("{}..{} {}={}", m.start, m.end, m.name(), m.value())).collect::<Vec<_>>()));
+                        if let Ok(l) = load_enc(&c.save(), c.text_encoding()) {
+                            eprintln!("     reloaded   = {:?}", l.marks(id).map(|v| v.iter().map(|m| format!("{}..{} {}={}", m.start, m.end, m.name(), m.value())).collect::<Vec<_>>()));
+                        }
+                    }
+                }
+            }
             return Some(format!("P{first} and P{p} have equal heads but different state {d}"));
         }
     }
@@ -241,7 +259,9 @@ impl Check for C21 {
         cx.count("sessions");
         cx.count(&format!("topology_{topo}"));
         let actions = rng.range(40, 160);
-        let mut snapshots: Vec<Option<AutoCommit>> = (0..n).map(|_| None).collect();
+        // every peer starts with a remembered copy of its initial document (a crash can lose everything
+        // it learned since); later copies replace it at random
+        let mut snapshots: Vec<Option<AutoCommit>> = (0..n).map(|q| if rng.chance(60) { Some(net.docs[q].clone()) } else { None }).collect();
         let mut crash_actor = 0usize;
         for _ in 0..actions {
             let li = rng.below(net.links.len());
@@ -258,8 +278,8 @@ impl Check for C21 {
                     let k = rng.range(1, 3);
                     net.edit(q, rng, k);
                 }
-                80..=87 => net.drop_link(li),
-                88..=89 => {
+                80..=85 => net.drop_link(li),
+                86..=89 => {
                     // remember a copy of a peer's document, or crash a peer back to its remembered copy
                     let q = rng.below(n);
                     if snapshots[q].is_some() && rng.chance(50) {
@@ -313,8 +333,43 @@ impl Check for C21 {
         if !common_safety(cx, &net) {
             return;
         }
+        if rounds.is_none() && cx.verbose {
+            for li in 0..net.links.len() {
+                let (a, b) = (net.links[li].a, net.links[li].b);
+                for (e, p) in [(0usize, a), (1usize, b)] {
+                    let st = net.links[li].st[e].clone();
+                    eprintln!("  L{li} end{e} (P{p}): in_flight={} have_responded={} sent_hashes={:?} shared_heads={:?} their_heads={:?} their_need={:?} last_sent_heads={:?}", st.in_flight, st.have_responded, st.sent_hashes.iter().map(|h| h.to_string()[..8].to_string()).collect::<Vec<_>>(), hash_hex(&st.shared_heads).iter().map(|h| h[..8].to_string()).collect::<Vec<_>>(), st.their_heads.as_ref().map(|h| hash_hex(h).iter().map(|h| h[..8].to_string()).collect::<Vec<_>>()), st.their_need.as_ref().map(|h| hash_hex(h).iter().map(|h| h[..8].to_string()).collect::<Vec<_>>()), hash_hex(&st.last_sent_heads).iter().map(|h| h[..8].to_string()).collect::<Vec<_>>());
+                }
+            }
+            for p in 0..n {
+                let q = queued_changes(&mut net.docs[p]);
+                let heads = net.docs[p].get_heads();
+                let missing = net.docs[p].get_missing_deps(&[]);
+                eprintln!("  P{p}: actor {} heads {:?} queued {:?} missing {:?} applied {}", net.docs[p].get_actor().to_hex_string(), hash_hex(&heads).iter().map(|h| h[..8].to_string()).collect::<Vec<_>>(), q.iter().map(|c| format!("{}(actor {} seq {})", &c.hash().to_string()[..8], &c.actor_id().to_hex_string()[..4], c.seq())).collect::<Vec<_>>(), hash_hex(&missing).iter().map(|h| h[..8].to_string()).collect::<Vec<_>>(), net.docs[p].get_changes(&[]).len());
+            }
+        }
+        // which fault model produced a livelock: links that still talk, and whether their ends lost data
+        let mut tag = "drops-only";
+        if rounds.is_none() {
+            for li in 0..net.links.len() {
+                if !net.links[li].up {
+                    continue;
+                }
+                let (a, b) = (net.links[li].a, net.links[li].b);
+                let talking = net.gen(li, a) | net.gen(li, b);
+                if talking {
+                    let ca = net.crashed.get(a).copied().unwrap_or(false);
+                    let cb = net.crashed.get(b).copied().unwrap_or(false);
+                    tag = match (ca, cb) {
+                        (true, true) => "both-ends-lost-data",
+                        (true, false) | (false, true) => if tag == "both-ends-lost-data" { tag } else { "one-end-lost-data" },
+                        _ => tag,
+                    };
+                }
+            }
+        }
         let Some(rounds) = rounds else {
-            cx.violation("not-quiet-within-bound", format!("{n} peers ({topo}) with {total} changes did not go quiet within {bound} rounds after edits and faults stopped"), detail(&net, json!({"fp_rate": rate, "topology": topo})));
+            cx.violation(&format!("not-quiet-within-bound|{tag}"), format!("{n} peers ({topo}) with {total} changes did not go quiet within {bound} rounds after edits and faults stopped"), detail(&net, json!({"fp_rate": rate, "topology": topo})));
             return;
         };
         cx.max("rounds_to_quiescence", rounds as u64);
